@@ -25,6 +25,7 @@ def bounds(tier):
 def jobs(tier, seed):
     n = 32 if tier == "quick" else 160
     js = [{"sub": "circuits", "chunk": i, "of": n} for i in range(n)]
+    js += [{"sub": "twice", "chunk": i, "of": 8} for i in range(8)]
     js.append({"sub": "circuits", "chunk": 0, "of": n, "hashseed": 1 + seed % 1000, "primary": False})
     js.append({"sub": "circuits", "chunk": 1, "of": n, "hashseed": 2 + seed % 1000, "primary": False})
     return js
@@ -112,9 +113,39 @@ def check(acc, desc, order):
     return nt
 
 
+def run_twice(job, acc):
+    """ternary applied to the output of ternary: the argument now carries nets with exactly the names the
+    transform synthesises (a_X, g0_x_in_fi, a_is_0, a_not_x ...), which it must uniquify around."""
+    import circuitgraph as cg
+    from mcv import snapshot
+
+    def small():
+        for gates in space.circuits(2, 2, max_arity=2, min_gates=1):
+            yield space.to_desc(2, gates, outputs="sinks")
+        for gates in space.circuits(1, 2, max_arity=2, consts=("0", "1"), min_gates=2):
+            yield space.to_desc(1, gates, consts=("0", "1"), outputs="sinks")
+
+    for _idx, desc in space.chunk(small(), job["chunk"], job["of"]):
+        try:
+            t1, _m = cg.tx.ternary(space.build(desc))
+        except Exception:  # noqa: BLE001
+            continue  # judged by the 'circuits' sub-space
+        d1 = snapshot.to_desc(t1)
+        d1 = {"name": d1["name"], "nodes": d1["nodes"]}
+        acc.states += 1
+        if check(acc, d1, "fwd"):
+            acc.nontrivial += 1
+        acc.sample({"desc": d1})
+        if acc.out_of_time():
+            break
+
+
 def run(job):
     common.setup_paths()
     acc = Acc(job)
+    if job["sub"] == "twice":
+        run_twice(job, acc)
+        return acc.result()
     for _idx, desc in space.chunk(corpus(job["tier"]), job["chunk"], job["of"]):
         for order in ("fwd", "rev"):
             acc.states += 1
